@@ -122,6 +122,16 @@ func (c *c11) raw(ch *kernel.Chooser) string {
 		if lr.Status != 302 {
 			return desc + " -> login failed"
 		}
+		if ch.Bool(1, 7) {
+			// the connection breaks while the provider writes this response (at once or after some bytes): the user
+			// agent gets nothing usable - and nothing of this response may turn up in a later one
+			n := []int{0, 0, 40, 150, 400}[ch.Int(5)]
+			w.Net.Fault = func(*world.Exchange) string { return fmt.Sprintf("write-fail:%d", n) }
+			c.b.Get(lr.Location)
+			w.Net.Fault = nil
+			c.o.Fault("response-write-fails")
+			return desc + fmt.Sprintf(" -> connection reset after %d bytes of the response", n)
+		}
 		r = c.b.Get(lr.Location)
 	}
 	if panicProbe(c.o, r) || r.Err != nil {
